@@ -262,6 +262,9 @@ func genAdmitCase(r *Rng, i int, k AdmitKnobs) *AdmitCase {
 			if a.Old.MetaGen == a.Obj.MetaGen && a.Obj.MetaGen != 0 {
 				tag("meta.sameGeneration")
 			}
+			if a.Old.MetaGen%2 == 1 && a.Obj.MetaGen%2 == 1 && a.Old.MetaRV != "" && a.Obj.MetaRV != "" {
+				tag("meta.bothTerminating")
+			}
 		}
 	}
 	switch faultSite {
@@ -384,7 +387,9 @@ func genPopulation(r *Rng, n int, exRC []string) []*corev1.Pod {
 					p.Spec.HostNetwork = true
 				}
 			case 'v':
-				if r.Bool() {
+				if r.Chance(1, 3) { // a violation that lives in the metadata only: the spec equals a compliant sibling's
+					p.Annotations = map[string]string{"container.apparmor.security.beta.kubernetes.io/c": "unconfined"}
+				} else if r.Bool() {
 					p.Spec.HostNetwork = true
 				} else {
 					p.Spec.Containers[0].SecurityContext = &corev1.SecurityContext{Privileged: bp(true)}
